@@ -30,15 +30,16 @@ type c12Spec struct {
 }
 
 func c12Specs() []c12Spec {
+	// cheapest first: each scenario gets an equal share of the time that is left
 	return []c12Spec{
-		{ID: "R1-mem-scan-deliver-remove", Backend: "mem", Kind: "race", Bound: [2]int{2, 3}},
-		{ID: "R1-file-scan-deliver-remove", Backend: "file", Kind: "race", Bound: [2]int{2, 3}},
 		{ID: "R2-mem-scan-cancel", Backend: "mem", Kind: "cancel-scan", Bound: [2]int{2, 3}},
 		{ID: "R2-file-scan-cancel", Backend: "file", Kind: "cancel-scan", Bound: [2]int{2, 3}},
 		{ID: "R2b-mem-scan-cancel-after-2nd-callback", Backend: "mem", Kind: "cancel-scan", When: "after-2", Bound: [2]int{2, 3}},
 		{ID: "R2b-file-scan-cancel-after-2nd-callback", Backend: "file", Kind: "cancel-scan", When: "after-2", Bound: [2]int{2, 3}},
 		{ID: "R3-mem-start-join-cancel-at-once", Backend: "mem", Kind: "start-join", When: "at-once", Bound: [2]int{2, 3}},
 		{ID: "R3-file-start-join-cancel-after-scan-began", Backend: "file", Kind: "start-join", When: "after-scan-began", Bound: [2]int{2, 3}},
+		{ID: "R1-mem-scan-deliver-remove", Backend: "mem", Kind: "race", Bound: [2]int{2, 3}},
+		{ID: "R1-file-scan-deliver-remove", Backend: "file", Kind: "race", Bound: [2]int{2, 3}},
 	}
 }
 
